@@ -27,6 +27,22 @@ type listCase struct {
 	Rules    []string `json:"rules_txt,omitempty"` // readable copy, not used on replay
 	Hosts    []string `json:"hosts_txt,omitempty"`
 	Perm     []int    `json:"perm,omitempty"` // a permutation of the rules that must give the same answers
+	// ModelLong: hosts of up to 256 bytes are compared with the model too (otherwise up to 64 bytes; the model's
+	// search is cubic in the subject). The property's clauses are judged on every host, whatever its length.
+	ModelLong bool `json:"model_long,omitempty"`
+}
+
+// modelled: is this host of the case sent to the model
+func (lc listCase) modelled(host string) bool {
+	return len(host) <= 64 || lc.ModelLong && len(host) <= 256
+}
+
+func sub[T any](all []T, idx []int) []T {
+	out := make([]T, 0, len(idx))
+	for _, i := range idx {
+		out = append(out, all[i])
+	}
+	return out
 }
 
 // itemCase: one raw flag value through ParseRegexpListItem (valid or not).
@@ -568,6 +584,18 @@ func checkList(ctx *core.Ctx, lc listCase) {
 	ctx.Count(fmt.Sprintf("list/rules=%d", len(rules)))
 	ctx.Count(fmt.Sprintf("list/excludes=%d", nExcl))
 	ctx.CountN("list/hosts", len(hosts))
+	for _, h := range hosts {
+		switch n := len(h); {
+		case n > 256:
+			ctx.Count("host/length/over-256-oracle-only")
+		case n > 253:
+			ctx.Count("host/length/254-256")
+		case n > 64:
+			ctx.Count("host/length/65-253")
+		case n >= 63:
+			ctx.Count("host/length/63-64")
+		}
+	}
 	if leakShape(rules) {
 		ctx.Count("list/shape/top-flag-group-before-another-rule")
 	}
@@ -605,13 +633,19 @@ func checkList(ctx *core.Ctx, lc listCase) {
 		}
 	}
 
-	// model
+	// model (on the hosts it is asked about: all of them unless the case has long hosts)
+	var mi []int
+	for j, h := range hosts {
+		if lc.modelled(h) {
+			mi = append(mi, j)
+		}
+	}
 	enc := encRules(rules)
-	hostsEnc := core.JoinList(lc.HostsHex)
+	hostsEnc := core.JoinList(sub(lc.HostsHex, mi))
 	// one round trip when the matcher was built: the answers of the verbs match | rules | holds
 	obsBits := "_"
 	if o.newErr == "" {
-		obsBits = bitsOf(o.match)
+		obsBits = bitsOf(sub(o.match, mi))
 	}
 	parts := strings.Split(ctx.Model.MustAsk("C17", "eval", enc, hostsEnc, obsBits), " | ")
 	if len(parts) != 4 {
@@ -643,7 +677,7 @@ func checkList(ctx *core.Ctx, lc listCase) {
 	case o.newErr != "":
 		impl = o.newErr
 	default:
-		impl = fmt.Sprintf("ok %s %s", bitsOf(o.match), bitsOf(o.inv))
+		impl = fmt.Sprintf("ok %s %s", bitsOf(sub(o.match, mi)), bitsOf(sub(o.inv, mi)))
 	}
 	if impl != ans && !(anyRisk && o.newErr == "" && strings.HasPrefix(ans, "ok ")) {
 		ctx.Disagree("NewRegexpMatcherFromList/Match/Inverse = Model.C17.fromList/matches/inv", lc, impl, ans)
@@ -651,7 +685,7 @@ func checkList(ctx *core.Ctx, lc listCase) {
 	// the model's regular-expression semantics against the regexp package, rule by rule
 	var perBits []string
 	for i := range rules {
-		perBits = append(perBits, bitsOf(per[i]))
+		perBits = append(perBits, bitsOf(sub(per[i], mi)))
 	}
 	if want := "ok " + core.JoinList(perBits); rans != want {
 		// a rule that is itself inside Go's alternation-factoring deviation is not compared
@@ -682,7 +716,7 @@ func checkList(ctx *core.Ctx, lc listCase) {
 		if o.match[j] != want[j] {
 			ok = false
 			ctx.SpecFail("list matches host iff some include rule matches it on its own and no exclude rule does", "", lc,
-				fmt.Sprintf("Match(%q)=%v", hosts[j], o.match[j]), fmt.Sprintf("per-rule evaluation by regexp gives %v", want[j]))
+				fmt.Sprintf("Match(%q)=%v (host of %d bytes)", short(hosts[j]), o.match[j], len(hosts[j])), fmt.Sprintf("per-rule evaluation by regexp gives %v", want[j]))
 			break
 		}
 	}
@@ -690,12 +724,12 @@ func checkList(ctx *core.Ctx, lc listCase) {
 		if o.inv[j] == o.match[j] || o.inv2[j] != o.match[j] {
 			ok = false
 			ctx.SpecFail("Inverse() gives the negation (and Inverse().Inverse() the original)", "", lc,
-				fmt.Sprintf("Match(%q)=%v Inverse=%v Inverse.Inverse=%v", hosts[j], o.match[j], o.inv[j], o.inv2[j]), "")
+				fmt.Sprintf("Match(%q)=%v Inverse=%v Inverse.Inverse=%v (host of %d bytes)", short(hosts[j]), o.match[j], o.inv[j], o.inv2[j], len(hosts[j])), "")
 			break
 		}
 	}
 	goHolds := true
-	for j := range hosts {
+	for _, j := range mi {
 		if o.match[j] != want[j] {
 			goHolds = false
 		}
@@ -1006,6 +1040,143 @@ func genListShaped(count func(string), r *core.Rand, foldPct, leakPct int) listC
 	return lc
 }
 
+// rules whose answer does not depend on how long the subject is
+var longRules = []struct{ pat, suffix string }{
+	{`.*`, ""}, {`.`, ""}, {`\.evil\.test$`, ".evil.test"}, {`\.test$`, ".test"}, {`^[a-z0-9.-]+$`, ""}, {`(?i)\.TEST$`, ".Evil.TEST"},
+	{`evil`, ".evil.example"}, {`[0-9a-z]$`, ""}, {`^[^.]+$`, ""}, {`\.`, ".x"}, {`^[a-z0-9]`, ""}, {`(?s)^.+$`, ""}, {`\.evil\.test$|\.bad\.test$`, ".bad.test"},
+	{`[a-z0-9](\.evil)?\.test$`, ".evil.test"},
+}
+
+// rules whose source texts are equal under case folding and which are different expressions
+var caseTwins = []struct{ a, exA, b, exB string }{
+	{`^\d+\.corp\.test$`, "12.corp.test", `^\D+\.corp\.test$`, "ab.corp.test"}, {`^[a-z]+$`, "abc", `^[A-Z]+$`, "ABC"},
+	{`^\w+$`, "ab_1", `^\W+$`, "-.-"}, {`^API\.`, "API.example.com", `^api\.`, "api.example.com"}, {`foo\b`, "foo", `foo\B`, "foox"},
+	{`^\S+$`, "ab", `^\s+$`, " "}, {`\.COM$`, "a.COM", `\.com$`, "a.com"},
+}
+
+// genTwinList: two rules of the same kind that differ in letter case only (`\d` / `\D`, `[a-z]` / `[A-Z]`, `^API\.` / `^api\.`)
+// among 0-2 grammar rules, with a host only one of the two matches: every rule is taken on its own.
+func genTwinList(count func(string), r *core.Rand) listCase {
+	g := &gen{r: r, feats: map[string]bool{}}
+	tw := core.Pick(r, caseTwins)
+	excl := r.Chance(30)
+	mark := ""
+	if excl {
+		mark = "-"
+	}
+	raws := []string{mark + tw.a, mark + tw.b}
+	hosts := []string{tw.exA, tw.exB, mutate(r, tw.exA), mutate(r, tw.exB)}
+	if excl {
+		raws = append(raws, core.Pick(r, []string{`.*`, `.`, `^[^/]+$`}))
+	}
+	for n := r.Intn(3); n > 0; n-- {
+		p, ex := genValidRule(g)
+		if strings.HasPrefix(p, "-") {
+			p = `\` + p
+		}
+		if r.Chance(25) {
+			p = "-" + p
+		}
+		raws = append(raws, p)
+		if len(ex) <= 40 && isASCII(ex) {
+			hosts = append(hosts, ex)
+		}
+	}
+	core.Shuffle(r, raws)
+	lc := listCase{Kind: "list"}
+	seen := map[string]bool{}
+	for _, raw := range raws {
+		lc.RulesHex = append(lc.RulesHex, core.HexS(raw))
+	}
+	for _, h := range hosts {
+		if !seen[h] && isASCII(h) && len(h) <= 40 {
+			seen[h] = true
+			lc.HostsHex = append(lc.HostsHex, core.HexS(h))
+		}
+	}
+	perm := make([]int, len(raws))
+	for i := range perm {
+		perm[i] = len(raws) - 1 - i
+	}
+	lc.Perm = perm
+	count("list/generator/case-twin-rules")
+	return lc
+}
+
+var hostLengths = []int{1, 2, 63, 64, 65, 127, 252, 253, 254, 255, 256, 257, 1024, 16384}
+
+// genLongList: HOST LENGTH as the dimension. 1-4 rules (length-insensitive pool, sometimes grammar rules whose example
+// match ends or starts the host), 3-6 hosts of 1 … 16384 bytes built from labels of at most 63 bytes or as one
+// giant label, always one beyond 253 bytes.
+func genLongList(count func(string), r *core.Rand) listCase {
+	g := &gen{r: r, feats: map[string]bool{}}
+	lc := listCase{Kind: "list", ModelLong: r.Chance(12)}
+	type lr struct {
+		pat, suffix string
+		excl        bool
+	}
+	var rs []lr
+	for n := r.Range(1, 3); n > 0; n-- {
+		x := core.Pick(r, longRules)
+		rs = append(rs, lr{x.pat, x.suffix, r.Chance(20)})
+	}
+	if r.Chance(30) {
+		p, ex := genValidRule(g)
+		if len(ex) > 40 || !isASCII(ex) {
+			ex = ""
+		}
+		rs = append(rs, lr{p, ex, r.Chance(30)})
+	}
+	nIncl := 0
+	for _, x := range rs {
+		if !x.excl {
+			nIncl++
+		}
+	}
+	if nIncl == 0 {
+		rs[0].excl = false
+	}
+	core.Shuffle(r, rs)
+	var suffixes []string
+	for _, x := range rs {
+		raw := x.pat
+		if x.excl {
+			raw = "-" + x.pat
+		} else if strings.HasPrefix(x.pat, "-") {
+			raw = `\` + x.pat
+		}
+		lc.RulesHex = append(lc.RulesHex, core.HexS(raw))
+		suffixes = append(suffixes, x.suffix)
+	}
+	suffixes = append(suffixes, "", ".other.org")
+	seen := map[string]bool{}
+	add := func(n int) {
+		h := longHost(r, n, core.Pick(r, suffixes), r.Chance(25))
+		if r.Chance(10) && n > 1 { // the rule's example in front
+			if sfx := core.Pick(r, suffixes); len(sfx) < n {
+				h = sfx + longHost(r, n-len(sfx), "", r.Chance(25))
+			}
+		}
+		if !seen[h] {
+			seen[h] = true
+			lc.HostsHex = append(lc.HostsHex, core.HexS(h))
+		}
+	}
+	for n := r.Range(2, 5); n > 0; n-- {
+		add(core.Pick(r, hostLengths))
+	}
+	add(core.Pick(r, []int{254, 255, 256, 254, 1024, 16384}))
+	if n := len(rs); n > 1 {
+		perm := make([]int, n)
+		for i := range perm {
+			perm[i] = n - 1 - i
+		}
+		lc.Perm = perm
+	}
+	count("list/generator/host-length")
+	return lc
+}
+
 func genItem(r *core.Rand) itemCase {
 	g := &gen{r: r, feats: map[string]bool{}}
 	p, _ := g.rule()
@@ -1045,12 +1216,17 @@ func Run(ctx *core.Ctx) {
 		"alternation, capturing / non-capturing / flag-scoped groups, unscoped flag groups with i m s U and '-'), each marked include or exclude, against up to 10 candidate " +
 		"hosts derived from the rules (an example match per rule, case variants, near misses, embedded line breaks); a list case is non-trivial when some rule matches " +
 		"some candidate on its own and the list has at least two rules or an exclude rule; about one list in eight is built around a shape on which the code failed before " +
-		"the repair of F10/F26 (a rule with an unscoped top-level flag group followed by a rule whose answer that flag would change; an upper-case letter leading one rule and " +
+		"the repair of F10/F26; host-length list cases: 1-4 rules whose answer does not depend on the length of the subject (suffix rules, '.*', classes; sometimes a grammar rule) against 3-6 hosts of " +
+		"1, 2, 63, 64, 65, 127, 252-257, 1024 and 16384 bytes (labels of at most 63 bytes, or one giant label; ending or starting with what a rule looks for), always one beyond 253 bytes: Match, Inverse() and " +
+		"Inverse().Inverse() judged on every host, the model compared on hosts up to 64 bytes (one case in eight: up to 256); case-twin list cases: two rules of one kind whose texts differ in letter case only " +
+		"('\\d' / '\\D', '[a-z]' / '[A-Z]', '^API\\.' / '^api\\.') among 0-2 grammar rules, with the hosts only one of the two matches; (the shapes of F10/F26: a rule with an unscoped top-level flag group followed by a rule whose answer that flag would change; an upper-case letter leading one rule and " +
 		"the same letter case-folded leading another), with the subjects that told the difference; item cases (damaged patterns through ParseRegexpListItem) are non-trivial when accepted; " +
 		"site cases: one proxy with deny-, direct- and mitm-domains lists (each given with probability 85%, 1-4 rules from a pool that tells a host from an authority: anchors, " +
 		"brackets, ':port' suffixes, letter case, exact length, rules derived from the targets), an upstream proxy and MITM, and 20-29 requests over names (mixed case, trailing dot), " +
 		"dotted quads and bracketed IPv6 literals (upper-case hex, embedded IPv4, zone id, a last group that looks like a port) x no port / empty port / explicit port x absolute-form " +
 		"(plain, with userinfo, with a Host header naming another host) / origin-form on the proxy port / CONNECT / origin-form inside an intercepted CONNECT; every request is one evaluation, " +
+		"each case with one --proxy-localhost mode (allow 50%, deny 25%, direct 25%) and 2-4 more targets of the localhost class (localhost in any letter case, loopback and unspecified literals, the hosts file's loopback names; " +
+		"one in five just outside it: 'localhost.', '127.1', '[::1%lo]') under lists seasoned with rules that match them, 40% of the cases with 1-3 hosts of 63-256 bytes (model and oracle) or 300 bytes-16 KiB (oracle); " +
 		"non-trivial when the authority differs from the host or some list says yes; in-process the argument of every Match call is recorded, the last cases run through the real binary; " +
 		"conc cases (child process): a list of 2-8 include rules, each with a host only it matches, and 0-3 exclude rules; 8-32 goroutines released together call Match on the matcher, its Inverse() " +
 		"and Inverse().Inverse() (80% of the calls on the hosts only one rule matches), 2-3 rounds with a fresh matcher, every answer judged, then every host asked again one call at a time; one evaluation per case, " +
@@ -1058,6 +1234,7 @@ func Run(ctx *core.Ctx) {
 		"with an upstream proxy, 8-24 concurrent clients, every response judged, then one request per host one at a time; " +
 		"distinct = distinct canonical inputs")
 	ctx.Assume("Go's regexp package (parser, flag scoping, matching engines) is trusted: it is the per-rule oracle, and its flag-scoping rule is the modelled fact")
+	ctx.Assume("the localhost class of --proxy-localhost is: the name localhost and the hosts file's names of loopback addresses in any letter case, and every loopback or unspecified address net.ParseIP reads")
 	ctx.Assume("the host a request is addressed to is the host the generator assembled its authority from (RFC 3986 host [ ':' port ], IP-literal in brackets); Go's net/http request parsing is trusted to deliver that authority in req.URL.Host")
 	inRun = true // the binary built for a corpus case is kept for the generated ones
 	for _, c := range core.LoadCorpus(ctx.Root, "C17") {
@@ -1080,6 +1257,25 @@ func Run(ctx *core.Ctx) {
 			lc.Rules, lc.Hosts = raws, hosts
 			ctx.Sample(lc)
 		}
+	}
+	// host length as the dimension: 1 … 16384 bytes under rules that do not care
+	nLong := ctx.N(1500, 15000)
+	for i := 0; i < nLong; i++ {
+		lc := genLongList(ctx.Count, ctx.Rng.Sub())
+		checkList(ctx, lc)
+		if i == 0 {
+			for _, hx := range lc.RulesHex {
+				lc.Rules = append(lc.Rules, string(core.MustUnHex(hx)))
+			}
+			for _, hx := range lc.HostsHex {
+				lc.Hosts = append(lc.Hosts, short(string(core.MustUnHex(hx))))
+			}
+			ctx.Sample(lc)
+		}
+	}
+	// rules that differ in letter case only are different rules
+	for i, n := 0, ctx.N(400, 4000); i < n; i++ {
+		checkList(ctx, genTwinList(ctx.Count, ctx.Rng.Sub()))
 	}
 	// the same property through the real binary's --deny-domains flag
 	nBin := ctx.N(10, 120)
